@@ -186,6 +186,73 @@ Definition econ_value (a : T) (ev : list bool) (p : vec) : T :=
   if n_eqb Ops clim_cost perfect then lit 0
   else n_div Ops (n_sub Ops clim_cost (econ_expense a ev p)) (n_sub Ops clim_cost perfect).
 
+(* ---- deterministic ROC (droc, droc0): false alarm rate against hit rate of the event `iv` for the observation and `fiv`
+        for the forecast, one point per forecast interval, between the end points (1,1) and (0,0) (GENERATED table and formulas) ---- *)
+Definition droc_point (iv fiv : interval Ops) (obs fcst : vec) : T * T :=
+  let '(a, b, c, d) := compute_abcd Ops iv fiv obs fcst in
+  (contingency_finish Ops (Fa_abcd Ops a b c d), contingency_finish Ops (Hit_abcd Ops a b c d)).
+Definition droc (iv : interval Ops) (fivs : list (interval Ops)) (obs fcst : vec) : list (T * T) :=
+  ((lit 1, lit 1) :: map (fun fiv => droc_point iv fiv obs fcst) fivs) ++ [(lit 0, lit 0)].
+
+(* ---- Murphy diagram: mean elementary score at the probability threshold e; a case contributes through exactly one of
+        the three terms (p > e and no event; p < e and event; p = e) ------------------------------------------------------- *)
+Definition frac (m : list bool) : T := n_div Ops (n_ofnat Ops (count_true m)) (n_ofnat Ops (length m)).
+Definition murphy_over (e : T) (p : vec) : list bool := map (fun q => n_ltb Ops e q) p.
+Definition murphy_under (e : T) (p : vec) : list bool := map (fun q => n_ltb Ops q e) p.
+Definition murphy_equal (e : T) (p : vec) : list bool := map (fun q => n_eqb Ops q e) p.
+Definition murphy_score (e : T) (ev : list bool) (p : vec) : T :=
+  let two_e := n_mul Ops (lit 2) e in
+  let t1 := n_mul Ops two_e (frac (map (fun z => andb (fst z) (negb (snd z))) (combine (murphy_over e p) ev))) in
+  let t2 := n_mul Ops (n_mul Ops (lit 2) (n_sub Ops (lit 1) e)) (frac (map (fun z => andb (fst z) (snd z)) (combine (murphy_under e p) ev))) in
+  let t3 := n_mul Ops (n_mul Ops two_e (n_sub Ops (lit 1) e)) (frac (murphy_equal e p)) in
+  n_add Ops (n_add Ops t1 t2) t3.
+
+(* ---- inverse reliability: per bin [e_i, e_i+1) of the forecast quantile: mean quantile value against the share of
+        observations at or below it (needs two cases; an empty bin keeps x = 0) ------------------------------------------------ *)
+Definition invrel_point (lo hi : T) (obs q : vec) : T * T :=
+  let m := map (fun v => in_co lo hi v) q in
+  let k := count_true m in
+  if Nat.eqb k 0 then (lit 0, nan)
+  else (vmean Ops (vsel m q),
+        if Nat.leb 2 k then frac (map snd (filter fst (combine m (map (fun z => n_leb Ops (fst z) (snd z)) (combine obs q))))) else nan).
+Definition invreliability (edges obs q : vec) : vec * vec :=
+  let r := map (fun b => invrel_point (fst b) (snd b) obs q) (pairs edges) in (map fst r, map snd r).
+
+(* ---- ignorance contribution: per probability bin (np.histogram rule: last bin closed) the mean probability, the summed
+        ignorance -log2 p (event) / -log2 (1 - p) (no event) scaled by bins / cases, and the count ---------------------------- *)
+Definition ign_bin (edges : vec) (i : nat) (ev : list bool) (p : vec) : T * T * nat :=
+  let m := bin_mask COL edges i p in
+  let k := count_true m in
+  if Nat.eqb k 0 then (nan, nan, 0%nat)
+  else
+    let sel := filter fst (combine m (combine ev p)) in
+    let s1 := vsum Ops (map (fun z => n_log2 Ops (snd (snd z))) (filter (fun z => fst (snd z)) sel)) in
+    let s0 := vsum Ops (map (fun z => n_log2 Ops (n_sub Ops (lit 1) (snd (snd z)))) (filter (fun z => negb (fst (snd z))) sel)) in
+    (vmean Ops (vsel m p), n_sub Ops (n_neg Ops s1) s0, k).
+Definition igncontrib (edges : vec) (ev : list bool) (p : vec) : vec * vec * list nat :=
+  let r := map (fun i => ign_bin edges i ev p) (seq 0 (nbins edges)) in
+  let tot := fold_left Nat.add (map snd r) 0%nat in
+  (map (fun z => fst (fst z)) r,
+   map (fun z => n_mul Ops (n_div Ops (snd (fst z)) (n_ofnat Ops tot)) (n_ofnat Ops (nbins edges))) r,
+   map snd r).
+
+(* ---- autocorr / autocov: for every ordered pair (i, j) of coordinates along the chosen dimension, the distance
+        |c_i - c_j| / scale against the correlation (np.corrcoef) or covariance (np.cov, n - 1) of the two error series over
+        the positions where both are present (at least two) ------------------------------------------------------------------- *)
+Definition vcov1 (x y : vec) : T :=
+  let mx := vmean Ops x in
+  let my := vmean Ops y in
+  n_div Ops (vsum Ops (vmap2 Ops (fun a b => n_mul Ops (n_sub Ops a mx) (n_sub Ops b my)) x y)) (n_ofnat Ops (length x - 1)).
+Definition auto_value (cov : bool) (x y : vec) : T :=
+  let m := map (fun z => notnan (fst z) && notnan (snd z)) (combine x y) in
+  let xs := vsel m x in
+  let ys := vsel m y in
+  if Nat.leb 2 (length xs) then (if cov then vcov1 xs ys else pearson Ops xs ys) else nan.
+Definition auto_points (cov : bool) (scale : T) (coords : vec) (rows : list vec) : vec * vec :=
+  let idx := seq 0 (length coords) in
+  (flat_map (fun i => map (fun j => n_div Ops (n_abs Ops (n_sub Ops (nth i coords nan) (nth j coords nan))) scale) idx) idx,
+   flat_map (fun i => map (fun j => auto_value cov (nth i rows []) (nth j rows [])) idx) idx).
+
 (* ---- time series / meteogram: mean over locations (and times) ---------------------------------------------- *)
 Definition row_nanmeans (rows : list vec) : vec := map nanmean rows.
 End D.
